@@ -497,7 +497,7 @@ pub fn invoke(c: &Call, buf: &mut [u8]) -> Result<Result<usize, ()>, PanicSig> {
     let vendors = [VendorIDFormat { format: 0, data: 0x1414, numeric_value: 4 }];
     let mut ctx = MCTPSMBusContext::new(c.own, &types, &vendors);
     if c.hist != 0 {
-        run_history(&mut ctx, c.own, c.hist);
+        run_history(&mut ctx, c.own, c.dest, c.hist);
     }
     invoke_on(&ctx, c, buf, true)
 }
@@ -506,7 +506,7 @@ pub fn invoke(c: &Call, buf: &mut [u8]) -> Result<Result<usize, ()>, PanicSig> {
 /// instance IDs, datagram / reserved bits, assignments, responses, vendor messages, corrupted
 /// packets, decode-only and get_length calls, a UUID update. Panics are trapped and ignored here
 /// (C10 judges them); what matters is the state left behind.
-pub fn run_history(ctx: &mut MCTPSMBusContext, own: u8, seed: u64) {
+pub fn run_history(ctx: &mut MCTPSMBusContext, own: u8, dest: u8, seed: u64) {
     use crate::refmodel::forge::*;
     let mut rng = Rng::new(seed);
     let mut rb = [0u8; 96];
@@ -534,7 +534,16 @@ pub fn run_history(ctx: &mut MCTPSMBusContext, own: u8, seed: u64) {
             3 => ctrl_request(own & 0x7F, src, iid, rng.chance(1, 3), 0x03, &[]),
             4 => ctrl_request(own & 0x7F, src, iid, rng.chance(1, 3), 0x06, &[rng.byte() & 1]),
             5 => ctrl_request(own & 0x7F, src, iid, false, rng.range(7, 0x20) as u8, &[rng.byte()]),
-            6 => ctrl_response(own & 0x7F, src, iid, 0x01, 0, &[0, rng.byte(), 0]),
+            // responses as the peer we are about to talk to might have sent them: Set Endpoint ID
+            // with every status / pool size, Allocate, Get Endpoint ID
+            6 => {
+                let from = if rng.chance(2, 3) { dest & 0x7F } else { src };
+                match rng.below(3) {
+                    0 => ctrl_response(own & 0x7F, from, iid, 0x01, 0, &[((rng.byte() & 1) << 4) | (rng.byte() & 3), rng.byte(), *rng.pick(&[0u8, 1, 4, 8, 16, 0xFF])]),
+                    1 => ctrl_response(own & 0x7F, from, iid, 0x08, 0, &[rng.byte() & 1, rng.byte(), rng.byte(), rng.byte()]),
+                    _ => ctrl_response(own & 0x7F, from, iid, 0x02, 0, &[rng.byte(), rng.byte() & 0x33, rng.byte()]),
+                }
+            }
             7 => crate::corpus::forged_vendor(&mut rng),
             _ => crate::corpus::gen_any(&mut rng),
         };
